@@ -642,6 +642,11 @@ def subscript(I, base, key):
             return base[concrete_int(key)]
         except IndexError:
             raise SymRaise("IndexError", "index out of range")
+    if isinstance(base, StructVec) and isinstance(key, str):
+        if key not in base.fields:
+            raise SymRaise("ValueError", f"no field of name {key}")
+        j = base.fields.index(key)
+        return Vec([r.items[j] for r in base.items])
     if isinstance(base, Vec):
         if isinstance(key, tuple) and Ellipsis in key and key.count(Ellipsis) == 1:
             # x[..., None] / x[None, ...]: the ellipsis stands for all the array's own axes
@@ -1968,9 +1973,34 @@ def _tovec(x):
 pytrunc = sp.Function("pytrunc", real=True)       # conversion of a (non-integer) number to an integer dtype
 
 
+class StructDtype:
+    """numpy.dtype([(name, type), ...]): a record layout; arrays of it are indexed by field name"""
+    def __init__(self, names, kinds):
+        self.names, self.kinds = tuple(names), tuple(kinds)
+
+    def __repr__(self):
+        return f"<dtype {list(self.names)}>"
+
+
+class StructVec(Vec):
+    """array with a record dtype: rows of equal length, a column per field"""
+    fields = ()
+
+
 def _as_dtype(I, v, dtype, copy):
     """numpy.array / asarray with a dtype: integer dtypes truncate, real dtypes drop an imaginary part; array() copies."""
     kind = None
+    if isinstance(dtype, StructDtype):
+        rows = v.items if isinstance(v, Vec) else iterate(I, v)
+        out = []
+        for r in rows:
+            cells = list(r.items) if isinstance(r, Vec) else list(iterate(I, r))
+            if len(cells) != len(dtype.names):
+                raise SymRaise("ValueError", "record of the wrong length for the dtype")
+            out.append(Vec([_as_dtype(I, c, k_, True) for c, k_ in zip(cells, dtype.kinds)]))
+        sv = StructVec(out)
+        sv.fields = dtype.names
+        return sv
     if dtype is not None:
         nm = dtype if isinstance(dtype, str) else getattr(dtype, "name", None) or str(dtype)
         nm = nm.rsplit(".", 1)[-1].lower()
@@ -1991,6 +2021,8 @@ def _as_dtype(I, v, dtype, copy):
             if kind is None and not copy:
                 return x
             return Vec(items, x.col)
+        if x is None and kind == "float":
+            return sp.nan               # numpy stores None as NaN in a float array
         if kind is None or not _alg(x):
             return x
         e = to_expr(x)
@@ -2157,8 +2189,16 @@ def _math(I, name):
     if name == "outer":
         return lambda a, b: Vec(Vec(binop(I, ast.Mult(), x, y) for y in _flat(b)) for x in _flat(a))
     if name == "loadtxt":
-        def loadtxt(fn, skiprows=0, **k):
-            rows = I.loadtxt_data
+        def loadtxt(fn, skiprows=0, unpack=False, usecols=None, **k):
+            bad = set(k) - {"dtype", "comments", "encoding", "ndmin"}
+            if bad:
+                raise AnalysisError(f"numpy.loadtxt option {sorted(bad)[0]} is not modelled")
+            rows = [list(r) for r in I.loadtxt_data]
+            if usecols is not None:
+                cols = [concrete_int(c) for c in (iterate(I, usecols) if not _alg(usecols) else [usecols])]
+                rows = [[r[c] for c in cols] for r in rows]
+            if unpack is True or unpack is sp.true:
+                rows = [list(c) for c in zip(*rows)]          # the transposed array: one row per column of the file
             return Vec(Vec(to_expr(c) for c in r) for r in rows)
         return loadtxt
     if name in ("isclose", "allclose"):
@@ -2181,6 +2221,14 @@ def _math(I, name):
                 raise AnalysisError("numpy.diff of a non-array")
             return Vec(binop(I, ast.Sub(), b_, a_) for a_, b_ in zip(x.items, x.items[1:]))
         return npdiff
+    if name == "dtype":
+        def npdtype(spec, *a, **k):
+            if isinstance(spec, (list, tuple)) and spec and all(isinstance(f_, (tuple, list)) and len(f_) in (2, 3) and isinstance(f_[0], str) for f_ in spec):
+                return StructDtype([f_[0] for f_ in spec], [f_[1] for f_ in spec])
+            if isinstance(spec, (str, Builtin, StructDtype)):
+                return spec
+            raise AnalysisError(f"numpy.dtype({spec!r}) is not modelled")
+        return npdtype
     if name in ("flip", "flipud"):
         return lambda x: Vec(list(reversed(x.items))) if isinstance(x, Vec) else x
     if name == "interp":
